@@ -36,19 +36,19 @@
     }
 //# ob name=coerce_u64_u64 fn=value::ops::coerce kind=complete stmt="coerce(U64,U64): Some(I128(p,q)) with p,q the exact operands; never None"
 //# ob name=coerce_u64_i64 fn=value::ops::coerce kind=complete stmt="coerce(U64,I64) exact"
-//# ob name=coerce_u64_u128 fn=value::ops::coerce kind=complete stmt="coerce(U64,U128) exact or None iff the u128 exceeds i128::MAX"
+//# ob name=coerce_u64_u128 fn=value::ops::coerce kind=complete tier=thorough stmt="coerce(U64,U128) exact or None iff the u128 exceeds i128::MAX"
 //# ob name=coerce_u64_i128 fn=value::ops::coerce kind=complete stmt="coerce(U64,I128) exact"
 //# ob name=coerce_i64_u64 fn=value::ops::coerce kind=complete stmt="coerce(I64,U64) exact"
 //# ob name=coerce_i64_i64 fn=value::ops::coerce kind=complete stmt="coerce(I64,I64) exact"
-//# ob name=coerce_i64_u128 fn=value::ops::coerce kind=complete stmt="coerce(I64,U128) exact or None iff out of i128"
+//# ob name=coerce_i64_u128 fn=value::ops::coerce kind=complete tier=thorough stmt="coerce(I64,U128) exact or None iff out of i128"
 //# ob name=coerce_i64_i128 fn=value::ops::coerce kind=complete stmt="coerce(I64,I128) exact"
-//# ob name=coerce_u128_u64 fn=value::ops::coerce kind=complete stmt="coerce(U128,U64) exact or None iff out of i128"
-//# ob name=coerce_u128_i64 fn=value::ops::coerce kind=complete stmt="coerce(U128,I64) exact or None iff out of i128"
+//# ob name=coerce_u128_u64 fn=value::ops::coerce kind=complete tier=thorough stmt="coerce(U128,U64) exact or None iff out of i128"
+//# ob name=coerce_u128_i64 fn=value::ops::coerce kind=complete tier=thorough stmt="coerce(U128,I64) exact or None iff out of i128"
 //# ob name=coerce_u128_u128 fn=value::ops::coerce kind=complete stmt="coerce(U128,U128) exact or None iff an operand exceeds i128::MAX (never a wrapped pair)"
-//# ob name=coerce_u128_i128 fn=value::ops::coerce kind=complete stmt="coerce(U128,I128) exact or None iff out of i128"
+//# ob name=coerce_u128_i128 fn=value::ops::coerce kind=complete tier=thorough stmt="coerce(U128,I128) exact or None iff out of i128"
 //# ob name=coerce_i128_u64 fn=value::ops::coerce kind=complete stmt="coerce(I128,U64) exact"
 //# ob name=coerce_i128_i64 fn=value::ops::coerce kind=complete stmt="coerce(I128,I64) exact"
-//# ob name=coerce_i128_u128 fn=value::ops::coerce kind=complete stmt="coerce(I128,U128) exact or None iff out of i128"
+//# ob name=coerce_i128_u128 fn=value::ops::coerce kind=complete tier=thorough stmt="coerce(I128,U128) exact or None iff out of i128"
 //# ob name=coerce_i128_i128 fn=value::ops::coerce kind=complete stmt="coerce(I128,I128) exact"
     coerce_pair!(coerce_u64_u64, u64, u64);
     coerce_pair!(coerce_u64_i64, u64, i64);
@@ -161,26 +161,32 @@
     int_binop_exact!(sub_exact_or_err, sub, checked_sub);
     int_binop_exact!(mul_exact_or_err, mul, checked_mul);
 
-    // mul on the 64-bit sub-domain, quick tier
-//# ob name=mul_exact_or_err_i64 fn=value::ops::mul kind=complete stubs=coerce,failed_op stmt="mul on every pair of 64-bit operands (as i128): Ok(exact product)"
+    // mul on the sub-domain |x|, |y| <= 2^64 (every 64-bit stored operand of either signedness, and one bit more):
+    // products reach 2^128, so the overflow branch is exercised; quick tier
+//# ob name=mul_exact_or_err_65bit fn=value::ops::mul kind=complete stubs=coerce,failed_op stmt="mul on every pair with |x|, |y| <= 2^64 (covers all u64/i64 stored operands): Ok(exact product) iff it fits i128, else Err; never a wrapped value"
     #[kani::proof]
     #[kani::unwind(2)]
     #[kani::stub(failed_op, stub_err)]
     #[kani::stub(impossible_op, stub_err)]
     #[kani::stub(coerce, coerce_contract)]
-    fn mul_exact_or_err_i64() {
-        let x: i64 = kani::any();
-        let y: i64 = kani::any();
-        unsafe { GA = x as i128; GB = y as i128; }
+    fn mul_exact_or_err_65bit() {
+        let x: i128 = kani::any();
+        let y: i128 = kani::any();
+        let lim: i128 = 1i128 << 64;
+        kani::assume(x >= -lim && x <= lim && y >= -lim && y <= lim);
+        unsafe { GA = x; GB = y; }
         let a = Value::from(0i64);
         let b = Value::from(0i64);
         let res = mul(&a, &b);
-        let exact = (x as i128) * (y as i128);
-        match &res {
-            Ok(v) => { assert!(small_of(v) == Some(exact)); }
-            Err(_) => { assert!(false); }
+        // oracle: std's checked_mul (trusted: exact-or-None; vstd spec, see checked_ops_exact)
+        let exact: Option<i128> = x.checked_mul(y);
+        match (&res, exact) {
+            (Ok(v), Some(e)) => { assert!(small_of(v) == Some(e)); }
+            (Err(_), None) => {}
+            _ => { assert!(false); }
         }
-        kani::cover!(true, "reached");
+        kani::cover!(res.is_ok(), "fits");
+        kani::cover!(res.is_err(), "overflow");
         std::mem::forget(res);
         std::mem::forget(a);
         std::mem::forget(b);
@@ -341,7 +347,7 @@
         kani::cover!(y != 0, "nonzero");
         std::mem::forget(qq); std::mem::forget(a); std::mem::forget(b);
     }
-//# ob name=rem_direct_boundary fn=value::ops::rem kind=bounded bound="concrete boundary operands" stmt="i128::MIN % -1 and i128::MIN // -1: // overflows => Err, % == 0; i128::MAX // 1 exact; x % 0 => Err"
+//# ob name=rem_direct_boundary fn=value::ops::rem kind=bounded tier=thorough bound="concrete boundary operands" stmt="i128::MIN % -1 and i128::MIN // -1: // overflows => Err, % == 0; i128::MAX // 1 exact; x % 0 => Err"
     #[kani::proof]
     #[kani::unwind(2)]
     #[kani::stub(failed_op, stub_err)]
@@ -449,13 +455,26 @@
 //# ob name=neg_u64 fn=value::ops::neg kind=complete stmt="neg(U64 x) == -x exactly"
 //# ob name=neg_i64 fn=value::ops::neg kind=complete stmt="neg(I64 x) == -x exactly (i64::MIN widens to i128)"
 //# ob name=neg_i128 fn=value::ops::neg kind=complete stmt="neg(I128 x) == -x or Err iff x == i128::MIN"
-//# ob name=neg_u128 fn=value::ops::neg kind=complete known_excl=neg_u128__excl stmt="neg(U128 x) == -x when x <= 2^127 (2^127 gives i128::MIN, sign not dropped), Err above"
-//# ob name=neg_u128__excl role=excl fn=value::ops::neg kind=complete stmt="neg(U128 x) exact-or-Err for every x except the listed known-finding class x == 2^127"
+//# ob name=neg_u128 fn=value::ops::neg kind=complete tier=thorough known_excl=neg_u128__excl stmt="neg(U128 x) == -x when x <= 2^127 (2^127 gives i128::MIN, sign not dropped), Err above (full u128 domain: the conversion-error path makes this a thorough-tier obligation)"
+//# ob name=neg_u128_small fn=value::ops::neg kind=complete tier=thorough stmt="neg(U128 x) == -x exactly for every x <= i128::MAX"
+//# ob name=neg_u128_at_2_127 fn=value::ops::neg kind=complete known_excl=none stmt="neg of the u128 value 2^127 is i128::MIN (the most negative literal), not +2^127"
+//# ob name=neg_u128__excl role=excl fn=value::ops::neg kind=complete tier=thorough stmt="neg(U128 x) exact-or-Err for every x except the listed known-finding class x == 2^127"
     neg_exact!(neg_u64, u64, |_| false);
     neg_exact!(neg_i64, i64, |_| false);
     neg_exact!(neg_i128, i128, |_| false);
     neg_exact!(neg_u128, u128, |_| false);
     neg_exact!(neg_u128__excl, u128, |x| x == (1u128 << 127));
+    neg_exact!(neg_u128_small, u128, |x| x > i128::MAX as u128);
+    #[kani::proof]
+    #[kani::unwind(2)]
+    #[kani::stub(crate::value::argtypes::unsupported_conversion, stub_conv_err)]
+    fn neg_u128_at_2_127() {
+        let v = Value::from(1u128 << 127);
+        let res = neg(&v);
+        match &res { Ok(r) => { assert!(small_of(r) == Some(i128::MIN)); } Err(_) => { assert!(false); } }
+        kani::cover!(true, "reached");
+        std::mem::forget(res); std::mem::forget(v);
+    }
 
     // ---------------------------------------------------------------- float paths of // and %
     static mut FA: f64 = 0.0;
